@@ -305,6 +305,8 @@ func (m *machine) serve() {
 		m.mu.Lock()
 		m.started = true
 		m.mu.Unlock()
+		// Serve's start-up tail: the service is started, the listener loop not yet running
+		m.ctl.Gate("serve.onserve", "")
 	})
 	conn.OnPublish = func(e fakeconn.Entry) {
 		if strings.HasSuffix(e.Subject, ".query") && strings.HasPrefix(e.Subject, "event.") {
